@@ -321,7 +321,7 @@ def run(ctx):
     r = ctx.rng.fork("c18")
     cat, hmap = catalogue()
     catalogued = {n for n, _, _ in cat}
-    n_random = 4000 if ctx.quick else 60000
+    n_random = 4000 if ctx.quick else 40000
     tables = gen_tables(ctx, r, n_random)
     n_sys = len(tables) - n_random
     ctx.cov["rule"] = ("%d systematic MySQL CREATE TABLE statements (every one of the %d catalogued types × {without, with parameters} × 3 letter cases, %d types outside the "
